@@ -659,6 +659,42 @@ def check_maybe_full_sources(ctx, F):
     ctx.extra['maybe_full_overrides_of_buffer_sinks'] = n
 
 
+def check_cursor_copies_keep_pos(ctx, F):
+    """A view or a copy of a cursor (as_view, as_mut_view, cloned, ..: `&self` / `&mut self` -> Cursor) is a cursor over the
+    same words *at the same position*: a decoder that is taken apart, whose cursor is copied and which is put together again
+    must go on reading where it was."""
+    n = 0
+    for b in F.bodies:
+        if b.promoted is not None or b.dk != 'AssocFn' or b.self_adt != CURSOR or b.impl_trait is not None or '::tests::' in b.defpath or b.vis != 'pub':
+            continue
+        if b.receiver_kind() not in ('&self', '&mut self') or b.arg_count != 1:
+            continue
+        sig = b.raw.get('sig') or ''
+        if '->' not in sig or not sig.split('->')[-1].strip().startswith(CURSOR + '<'):
+            continue
+        n += 1
+        ctx.touch(b)
+        key = 'R6/cursor-copy-keeps-pos/' + b.defpath
+        role = 'a view / copy of a cursor keeps the position'
+        _, paths = rules.evaluate(b)
+        rr = single_return(paths or [])
+        if rr is None:
+            ctx.unresolved('R6', role, b.defpath, 'several paths', key=key)
+            continue
+        t = rr.ret
+        for _ in range(2):
+            t = rules.inline_pure(F, t)
+        if not (isinstance(t, tuple) and t and t[0] == 'agg' and t[3] and 'pos' in t[3]):
+            ctx.unresolved('R6', role, b.defpath, 'the result is not a Cursor literal (%s)' % sym.show(t)[:60], key=key)
+            continue
+        pos = t[2][t[3].index('pos')]
+        if pos == ('in', (1, 'deref', POS)):
+            ctx.ok('R6', role, b.defpath, 'pos: self.pos', key=key)
+        else:
+            ctx.bad('R6', role, b.defpath, 'the returned cursor starts at %s instead of self.pos: a reader built on the copy re-reads (or skips) words the original had already passed' % sym.show(pos)[:60], key=key, loc=rules.loc(b))
+    ctx.extra['cursor_view_functions'] = n
+
+
 def check_extend_stops(ctx, F):
     """`extend_from_iter` hands the words to `write` one by one and stops at the first refusal: after a refused word no
     further word reaches the sink (a sink whose failure is transient would otherwise receive a stream with a hole), and the
@@ -928,6 +964,7 @@ def run(ctx):
         check_maybe_exhausted_sources(ctx, F)
         check_true_answer_unused(ctx, F)
         check_extend_stops(ctx, F)
+        check_cursor_copies_keep_pos(ctx, F)
         check_maybe_full_sources(ctx, F)
         check_into_reversed(ctx, F)
         check_sticky_and_delegation(ctx, F)
